@@ -105,6 +105,97 @@ theorem m_mono (d : Dialect) (s : List Nat) : ∀ (r : Re) (gi : Nat) (x y : MS)
   | look n r _ => intro gi x y h; simp [m] at h
   | backref n => intro gi x y h; simp [m] at h
 
+theorem stepChar_bound (s : List Nat) (t : Nat → Bool) (x y : MS) (h : y ∈ stepChar s t x) : y.pos ≤ s.length := by
+  unfold stepChar at h
+  split at h
+  · rename_i c hc
+    split at h
+    · simp at h; subst h
+      have := (List.getElem?_eq_some_iff.mp hc).1
+      simp; omega
+    · simp at h
+  · simp at h
+
+/-- repLoop keeps every result inside the subject when the body does -/
+theorem repLoop_bound (L : Nat) (g : Bool) (f : MS → List MS) (hf : ∀ x y, y ∈ f x → x.pos ≤ L → y.pos ≤ L) :
+    ∀ fuel es5 min max x y, y ∈ repLoop es5 g f fuel min max x → x.pos ≤ L → y.pos ≤ L := by
+  intro fuel; induction fuel with
+  | zero => intro es5 min max x y h; simp [repLoop] at h
+  | succ fuel ih =>
+    intro es5 min max x y h hx
+    unfold repLoop at h
+    split at h
+    · simp at h; subst h; exact hx
+    · have hiter : ∀ y, y ∈ ((f x).flatMap fun y =>
+          if es5 then (if min = 0 ∧ y.pos = x.pos then [] else repLoop es5 g f fuel (min - 1) (max.map (· - 1)) y)
+          else (if max = none ∧ min ≤ 1 ∧ y.pos = x.pos then [y]
+                else repLoop (decide (max = none ∧ min ≤ 1)) g f fuel (min - 1) (max.map (· - 1)) y)) → y.pos ≤ L := by
+        intro y hy
+        rw [List.mem_flatMap] at hy
+        obtain ⟨z, hz, hy⟩ := hy
+        have hxz := hf x z hz hx
+        cases es5 with
+        | true =>
+          simp only [if_true] at hy
+          split at hy
+          · simp at hy
+          · exact ih _ _ _ z y hy hxz
+        | false =>
+          simp only [Bool.false_eq_true, if_false] at hy
+          split at hy
+          · simp at hy; subst hy; exact hxz
+          · exact ih _ _ _ z y hy hxz
+      simp only at h
+      split at h
+      · exact hiter y h
+      · split at h
+        · rw [List.mem_append] at h
+          rcases h with h | h
+          · exact hiter y h
+          · simp at h; subst h; exact hx
+        · rw [List.mem_cons] at h
+          rcases h with h | h
+          · subst h; exact hx
+          · exact hiter y h
+
+theorem m_bound (d : Dialect) (s : List Nat) : ∀ (r : Re) (gi : Nat) (x y : MS), y ∈ m d s r gi x → x.pos ≤ s.length → y.pos ≤ s.length := by
+  intro r; induction r with
+  | empty => intro gi x y h hx; simp [m] at h; subst h; exact hx
+  | ch sp => intro gi x y h _; exact stepChar_bound _ _ _ _ h
+  | dot => intro gi x y h _; exact stepChar_bound _ _ _ _ h
+  | cls k => intro gi x y h _; exact stepChar_bound _ _ _ _ h
+  | set neg items => intro gi x y h _; exact stepChar_bound _ _ _ _ h
+  | bol => intro gi x y h hx; rw [assertIf_pos _ _ _ h]; exact hx
+  | eol => intro gi x y h hx; rw [assertIf_pos _ _ _ h]; exact hx
+  | wordb => intro gi x y h hx; rw [assertIf_pos _ _ _ h]; exact hx
+  | nwordb => intro gi x y h hx; rw [assertIf_pos _ _ _ h]; exact hx
+  | group r ih =>
+    intro gi x y h hx
+    simp only [m, List.mem_map] at h
+    obtain ⟨z, hz, rfl⟩ := h
+    exact ih _ x z hz hx
+  | ncgroup r ih => intro gi x y h hx; exact ih _ _ _ h hx
+  | seq a b iha ihb =>
+    intro gi x y h hx
+    simp only [m, List.mem_flatMap] at h
+    obtain ⟨z, hz, hy⟩ := h
+    exact ihb _ _ _ hy (iha _ _ _ hz hx)
+  | alt a b iha ihb =>
+    intro gi x y h hx
+    simp only [m, List.mem_append] at h
+    rcases h with h | h
+    · exact iha _ _ _ h hx
+    · exact ihb _ _ _ h hx
+  | quant r q l ih =>
+    intro gi x y h hx
+    simp only [m] at h
+    refine repLoop_bound s.length _ _ ?_ _ _ _ _ x y h hx
+    intro x' y' hy' hx'
+    have := ih _ _ _ hy'
+    split at this <;> exact this hx'
+  | look n r _ => intro gi x y h; simp [m] at h
+  | backref n => intro gi x y h; simp [m] at h
+
 /-- with a mandatory first iteration of a progressing body, repLoop progresses -/
 theorem repLoop_strict (es5 g : Bool) (f : MS → List MS) (hf : ∀ x y, y ∈ f x → x.pos < y.pos)
     (fuel min : Nat) (max : Option Nat) (x y : MS) (hmin : min ≠ 0) (hmax : max ≠ some 0)
